@@ -125,6 +125,108 @@ def parseOptBytes (s : String) : Option (Option Bytes) :=
 
 def parseMax (s : String) : Option Nat := if s = "none" then some Gen.Keys.pipeBuf else s.toNat?
 
+/-! ### derivation (`clone_with`): update tokens are `field:value`, `field:None` (the field becomes
+    unset) and, for a transmit command, `placement:new` (a fresh `PlacementData()`, filled by the
+    following `p.x:v` tokens) -/
+
+def unsetPlacement (p : Placement) : String → Option Placement
+  | "placement_id" => some { p with placementId := none }
+  | "virtual" => some { p with virtual := none }
+  | "rows" => some { p with rows := none }
+  | "cols" => some { p with cols := none }
+  | "do_not_move_cursor" => some { p with doNotMoveCursor := none }
+  | "src_x" => some { p with srcX := none }
+  | "src_y" => some { p with srcY := none }
+  | "src_w" => some { p with srcW := none }
+  | "src_h" => some { p with srcH := none }
+  | _ => none
+
+def unsetTransmit (t : Transmit) : String → Option Transmit
+  | "image_id" => some { t with imageId := none }
+  | "image_number" => some { t with imageNumber := none }
+  | "medium" => some { t with medium := none }
+  | "size" => some { t with size := none }
+  | "offset" => some { t with offset := none }
+  | "quiet" => some { t with quiet := none }
+  | "more" => some { t with more := none }
+  | "format" => some { t with format := none }
+  | "compression" => some { t with compression := none }
+  | "pix_width" => some { t with pixWidth := none }
+  | "pix_height" => some { t with pixHeight := none }
+  | "query" => some { t with query := none }
+  | "placement" => some { t with placement := none }
+  | _ => none
+
+def updTransmit (t : Transmit) (name value : String) : Option Transmit :=
+  if value = "None" then unsetTransmit t name
+  else if name = "placement" ∧ value = "new" then some { t with placement := some {} }
+  else setTransmit t name value
+
+def updMore (m : MoreData) (name value : String) : Option MoreData :=
+  if value = "None" then
+    match name with
+    | "image_id" => some { m with imageId := none }
+    | "image_number" => some { m with imageNumber := none }
+    | "more" => some { m with more := none }
+    | _ => none
+  else setMore m name value
+
+def updPut (p : Put) (name value : String) : Option Put :=
+  if value = "None" then
+    match name with
+    | "image_id" => some { p with imageId := none }
+    | "image_number" => some { p with imageNumber := none }
+    | "quiet" => some { p with quiet := none }
+    | _ => (unsetPlacement p.placement name).map fun pl => { p with placement := pl }
+  else setPut p name value
+
+def updDelete (d : Delete) (name value : String) : Option Delete :=
+  if value = "None" then
+    match name with
+    | "image_id" => some { d with imageId := none }
+    | "image_number" => some { d with imageNumber := none }
+    | "placement_id" => some { d with placementId := none }
+    | "quiet" => some { d with quiet := none }
+    | "what" => some { d with what := none }
+    | "delete_data" => some { d with deleteData := none }
+    | _ => none
+  else setDelete d name value
+
+/-- `c.clone_with(**updates)` -/
+def cloneWith (c : GCmd) (upd : List String) : Option GCmd :=
+  match c with
+  | .transmit t => (foldFields updTransmit t upd).map .transmit
+  | .moreData m => (foldFields updMore m upd).map .moreData
+  | .put p => (foldFields updPut p upd).map .put
+  | .delete d => (foldFields updDelete d upd).map .delete
+
+/-- split the request at the token `|` -/
+def splitBar (toks : List String) : List String × List String :=
+  (toks.takeWhile (· ≠ "|"), (toks.dropWhile (· ≠ "|")).drop 1)
+
+/-- header, content, to_bytes with the default template -/
+def triple (c : GCmd) : String :=
+  s!"{hexOut (headerBytes c)} {hexOut (contentBytes c)} {hexOut (toBytes (template 0) c)}"
+
+/-! ### terminal configuration histories: `clone:k` / `clone:_` (`clone_with(num_tmux_layers=k / None)`),
+    `amax:v` / `amax:none` (`max_command_size = v`), `alayers:k` (`num_tmux_layers = k`),
+    `detect:<TMUX>:<TERM>` (`detect_tmux()` under that environment; `_` = unset, else hex) -/
+
+def termStep (c : TermCfg) (tok : String) : Option TermCfg :=
+  match tok.splitOn ":" with
+  | ["clone", k] => if k = "_" then some (c.cloneWith none) else k.toNat?.map fun k => c.cloneWith (some k)
+  | ["amax", v] => if v = "none" then some { c with maxSize := none } else v.toNat?.map fun v => { c with maxSize := some v }
+  | ["alayers", k] => k.toNat?.map fun k => { c with layers := k }
+  | ["detect", tm, te] => match parseOptBytes tm, parseOptBytes te with
+      | some tm, some te => some (c.detect ⟨tm, te⟩)
+      | _, _ => none
+  | _ => none
+
+def parseTermCfg (layers mx : String) (steps : List String) : Option TermCfg := do
+  let n ← layers.toNat?
+  let m ← if mx = "none" then some none else mx.toNat?.map some
+  steps.foldlM termStep { maxSize := m, layers := n }
+
 def handle : List String → String
   | "tobytes" :: n :: cmd => match n.toNat?, parseCmd cmd with
       | some n, some c => hexOut (toBytes (template n) c)
@@ -151,6 +253,24 @@ def handle : List String → String
            | some cv => s!"{boolStr (detectTmux e)} {detectSiteTerminal cur e} {detectSiteConfig cv e}"
            | none => "bad")
       | _, _, _ => "bad"
+  | "clone" :: rest => match parseCmd (splitBar rest).1 with
+      | some c => (match cloneWith c (splitBar rest).2 with
+          | some c' => triple c' | none => "bad")
+      | none => "bad"
+  | "pure" :: cmd => match parseCmd cmd with
+      | some (.transmit t) => triple (.transmit t.pureTransmit) | _ => "bad"
+  | "putcmd" :: cmd => match parseCmd cmd with
+      | some (.transmit t) => (match t.putCommand with
+          | some p => triple (.put p) | none => "none")
+      | _ => "bad"
+  | "termcfg" :: layers :: mx :: steps => match parseTermCfg layers mx steps with
+      | some c => s!"{c.layers} {match c.maxSize with | none => "none" | some v => toString v}"
+      | none => "bad"
+  | "termsend" :: layers :: mx :: rest => match parseTermCfg layers mx (splitBar rest).1, parseCmd (splitBar rest).2 with
+      | some c, some cmd => (match c.sendCommand Gen.Keys.pipeBuf cmd with
+          | .error _ => "err"
+          | .ok l => hexList l)
+      | _, _ => "bad"
   -- independent specification
   | ["spec_parse", h] => match ofHex h with
       | some bs => (match Spec.GfxParse.parse bs with
